@@ -51,3 +51,12 @@ VARIANTS += [
       "_jvp = torch.autograd.grad(_vjp, dummy_outputs, grad_outputs=grad_inputs * 2, **kwargs)", rule="R11"),
     V("twin-misc-vjp-temporary", MISC, "    return convert_none_to_zeros(_vjp, inputs)\n", "    out = convert_none_to_zeros(_vjp, inputs)\n    return out\n", expect="silent"),
 ]
+
+VARIANTS += [
+    # session-4 repair: with gradients disabled the adjoint Milstein blocks are detached on the way out (a vjp hands its cotangent
+    # back where the Jacobian is the identity, and the cotangents were computed with gradients enabled)
+    V("milstein-blocks-not-detached-under-no-grad", A, "            if not requires_grad:\n                # A vjp hands its cotangent back",
+      "            if False:\n                # A vjp hands its cotangent back", rule="R11.3"),
+    V("twin-milstein-blocks-detached-in-a-loop", A, "                gdg_blocks = tuple(block.detach() for block in gdg_blocks)\n",
+      "                gdg_blocks = tuple([block.detach() for block in gdg_blocks])\n", expect="silent"),
+]
